@@ -1,7 +1,7 @@
 /-
   C07 — a molecular grid is the weighted concatenation of its atomic grids.
 
-  Model: `Model/MolGrid.lean` (hand-written, tied by correspondence, harness/props/c07.py);
+  Model: `Model/MolGrid.lean` (hand-written, tied by correspondence, harness/props/c07.py); the generated constructor / accessors against it: `Props/C07/GenInit.lean` (moved there in round 6);
   selection logic and call sites of the convenience constructors, and (round 2) the constructor
   `__init__`, `get_atomic_grid`, `__getitem__` statement by statement: `Gen/MolGrid.lean`
   (regenerated from /repo on every run; `gen_*_eq_model` tie it to the hand model). Helper lemmas: `Lemmas/MolGrid.lean`.
@@ -840,222 +840,5 @@ theorem defaultRgrid_table_ok :
         y ∈ Gen.MolGrid.defaultRgridNpt.map Prod.fst := by
       decide +kernel
     exact this z (by omega) h
-
-/-! ### round 2: the constructor and the accessors as *generated* code
-
-`Gen.MolGrid.init_loop`, `Gen.MolGrid.init`, `Gen.MolGrid.getAtomicGrid`, `Gen.MolGrid.getItem` are
-translated statement by statement from the current `molgrid.py` (zero-initialised arrays, the
-`enumerate` loop with item / slice assignments, the aim-weights dispatch, `super().__init__`; the
-guards, `is None` branches, slices and `LocalGrid(...)` of the accessors). The theorems below
-tie them to the hand model for *all* inputs; a semantic change of the source inside the
-translator's vocabulary changes the generated definitions and breaks these proofs, a change
-outside the vocabulary makes the translator raise. -/
-
-/-- One turn of the constructor's loop (generated `init_loop`) on the loop invariant `loopState`:
-atom number `len(d)` with grid `g`, `r` atoms and `z` points still to come. The centre goes to
-`_atcoords[i]`, `_indices[i+1]` becomes the running sum, the two slice assignments fill exactly
-the next `g.size` cells — or NumPy raises `ValueError` when the points do not fit the segment. -/
-theorem init_loop_step [NatCast K] (zeroRow : P) (d : List (AtGrid P K)) (hd : ∀ g ∈ d, g.Fits)
-    (g : AtGrid P K) (r z : Nat) :
-    Gen.MolGrid.init_loop d.length g (loopState zeroRow d (r + 1) (g.size + z)).1
-      (loopState zeroRow d (r + 1) (g.size + z)).2.1 (loopState zeroRow d (r + 1) (g.size + z)).2.2.1
-      (loopState zeroRow d (r + 1) (g.size + z)).2.2.2 =
-    if g.Fits then .ok (loopState zeroRow (d ++ [g]) r z) else .error .valueError := by
-  have hT : (indexTable (d.map AtGrid.size)).length = d.length + 1 := by
-    rw [indexTable_length, List.length_map]
-  have hC : (d.map AtGrid.center).length = d.length := List.length_map _
-  have hS : (indexTable (d.map AtGrid.size))[d.length]? = some (d.map AtGrid.size).sum := by
-    have := indexTable_getElem? (d.map AtGrid.size) d.length (by simp)
-    rwa [List.take_of_length_le (by simp)] at this
-  -- 1. atcoords[i] = center
-  have h1 : pySetItem (d.map AtGrid.center ++ replicate (r + 1) zeroRow) (d.length : Int) g.center =
-      .ok ((d ++ [g]).map AtGrid.center ++ replicate r zeroRow) := by
-    rw [pySetItem_nat_lt _ _ _ (by simp)]
-    congr 1
-    have := set_append_replicate (d.map AtGrid.center) r zeroRow g.center
-    rw [hC] at this
-    rw [this]; simp
-  -- 2. indices
-  have h2 : pyGet (indexTable (d.map AtGrid.size) ++ replicate (r + 1) 0) ((d.length : Int) + 1) = .ok 0 := by
-    rw [pyGet_succ, pyGet_nat]
-    have := getElem?_append_replicate (indexTable (d.map AtGrid.size)) r 0
-    rw [hT] at this
-    rw [this]
-  have h3 : pyGet (indexTable (d.map AtGrid.size) ++ replicate (r + 1) 0) (d.length : Int) =
-      .ok (d.map AtGrid.size).sum := by
-    rw [pyGet_nat, List.getElem?_append_left (by omega), hS]
-  have h4 : pySetItem (indexTable (d.map AtGrid.size) ++ replicate (r + 1) 0) ((d.length : Int) + 1)
-      (0 + ((d.map AtGrid.size).sum + g.size)) =
-      .ok (indexTable ((d ++ [g]).map AtGrid.size) ++ replicate r 0) := by
-    rw [pySetItem_succ, pySetItem_nat_lt _ _ _ (by simp; omega)]
-    congr 1
-    have := set_append_replicate (indexTable (d.map AtGrid.size)) r 0 (0 + ((d.map AtGrid.size).sum + g.size))
-    rw [hT] at this
-    rw [this, List.map_append, List.map_cons, List.map_nil, indexTable_append_singleton, Nat.zero_add]
-  have hT' : (indexTable ((d ++ [g]).map AtGrid.size)).length = d.length + 2 := by
-    rw [indexTable_length, List.length_map, List.length_append]; rfl
-  have h5 : pyGet (indexTable ((d ++ [g]).map AtGrid.size) ++ replicate r 0) (d.length : Int) =
-      .ok (d.map AtGrid.size).sum := by
-    rw [pyGet_nat, List.getElem?_append_left (by omega), List.map_append, List.map_cons, List.map_nil,
-      indexTable_append_singleton, List.getElem?_append_left (by omega), hS]
-  have h6 : pyGet (indexTable ((d ++ [g]).map AtGrid.size) ++ replicate r 0) ((d.length : Int) + 1) =
-      .ok ((d.map AtGrid.size).sum + g.size) := by
-    rw [pyGet_succ, pyGet_nat, List.getElem?_append_left (by omega), List.map_append, List.map_cons,
-      List.map_nil, indexTable_append_singleton, List.getElem?_append_right (by omega), hT]
-    simp
-  -- 3. the slices
-  have hF : ((d.map AtGrid.segPoints).flatten).length = (d.map AtGrid.size).sum :=
-    flatten_points_length d hd
-  have hW : ((d.map AtGrid.weights).flatten).length = (d.map AtGrid.size).sum :=
-    flatten_weights_length d
-  have h7 := pySetSlice_append_replicate (d.map AtGrid.segPoints).flatten g.size z zeroRow g.points
-  rw [hF, fitSlice_points] at h7
-  have h8 := pySetSlice_append_replicate (d.map AtGrid.weights).flatten g.size z ((0 : Nat) : K) g.weights
-  have hfw : fitSlice g.size g.weights = .ok g.weights := fitSlice_self g.weights
-  rw [hW, hfw] at h8
-  unfold Gen.MolGrid.init_loop loopState
-  simp only [h1, h2, h3, h4, h5, h6, ok_bind]
-  by_cases hg : g.Fits
-  · rw [if_pos hg] at h7 ⊢
-    simp only [h7, h8, ok_bind]
-    simp [pure, Except.pure]
-  · rw [if_neg hg] at h7 ⊢
-    simp only [h7]
-    rfl
-
-
-/-- The whole loop: started behind the atoms `d` it fills in the atoms `rest`, or raises the
-`ValueError` of the first atomic grid whose points do not fit. -/
-theorem init_loop_spec [NatCast K] (zeroRow : P) (rest d : List (AtGrid P K)) (hd : ∀ g ∈ d, g.Fits) :
-    pyForEnum (fun st i atom_grid => Gen.MolGrid.init_loop i atom_grid st.1 st.2.1 st.2.2.1 st.2.2.2)
-      d.length rest (loopState zeroRow d rest.length (rest.map AtGrid.size).sum) =
-    if ∀ g ∈ rest, g.Fits then .ok (loopState zeroRow (d ++ rest) 0 0) else .error .valueError := by
-  induction rest generalizing d with
-  | nil => simp [pyForEnum_nil]
-  | cons g rest ih =>
-    have hstep := init_loop_step zeroRow d hd g rest.length (rest.map AtGrid.size).sum
-    simp only [List.length_cons, List.map_cons, List.sum_cons]
-    by_cases hg : g.Fits
-    · rw [if_pos hg] at hstep
-      rw [pyForEnum_cons_ok _ _ _ _ _ _ hstep]
-      have hd' : ∀ x ∈ d ++ [g], x.Fits := by
-        intro x hx
-        rcases List.mem_append.mp hx with hx | hx
-        · exact hd x hx
-        · rw [List.mem_singleton.mp hx]; exact hg
-      have := ih (d ++ [g]) hd'
-      rw [List.length_append, List.length_singleton] at this
-      rw [this, List.append_assoc, List.singleton_append]
-      simp [hg]
-    · rw [if_neg hg] at hstep
-      rw [pyForEnum_cons_error _ _ _ _ _ _ hstep]
-      simp [hg]
-
-
-/-- **The generated constructor is the hand model** (`MolGrid.__init__`, for every input): for
-every row `zeroRow` the zero-initialised arrays are completely overwritten — `_indices` by the
-running sums, `_atcoords` by the centres, `_points` / `_atweights` by the concatenation of the
-atomic grids —, the exceptions agree as well: no atomic grid → `TypeError` (`np.sum([])` is the
-float `0.0`, not a shape), points that do not fit their segment → `ValueError` (a *single* point
-is broadcast by NumPy, `AtGrid.segPoints`; found by experiment on the real constructor, the hand
-model said `ValueError` there before round 2), aim weights of a wrong size / type →
-`ValueError` / `TypeError`, a callable's result of a wrong length → `ValueError`. -/
-theorem gen_init_eq_model [Add K] [Mul K] [NatCast K] (zeroRow : P) (atnums : List Nat)
-    (atgrids : List (AtGrid P K)) (aim : AimArg P K) (store : Bool) :
-    Gen.MolGrid.init zeroRow atnums atgrids aim store = MolGrid.init atnums atgrids aim store := by
-  unfold Gen.MolGrid.init MolGrid.init
-  cases hne : atgrids with
-  | nil => rfl
-  | cons g0 r0 =>
-    rw [← hne]
-    have he : atgrids.isEmpty = false := by rw [hne]; rfl
-    have hsum : npSum (atgrids.map fun atomgrid => atomgrid.size) = .int (atgrids.map AtGrid.size).sum := by
-      apply npSum_ne_nil; rw [hne]; simp
-    have hloop := init_loop_spec (K := K) zeroRow atgrids [] (by simp)
-    simp only [loopState, List.map_nil, List.nil_append, List.length_nil, List.flatten_nil, indexTable,
-      prefixSums] at hloop
-    simp only [he, Bool.false_eq_true, ↓reduceIte, hsum, npZeros_int, ok_bind]
-    simp only [List.replicate_zero, List.append_nil, List.singleton_append] at hloop
-    rw [List.replicate_succ, hloop]
-    by_cases hf : ∀ g ∈ atgrids, g.Fits
-    · rw [if_pos hf, if_neg (not_not.mpr hf)]
-      simp only [ok_bind, NpNum.toNat]
-      cases aim with
-      | callable f => rfl
-      | array a =>
-        simp only
-        by_cases hl : a.length = (atgrids.map AtGrid.size).sum
-        · simp only [hl, ne_eq, not_true_eq_false, ↓reduceIte]; rfl
-        · simp only [ne_eq, hl, not_false_eq_true, ↓reduceIte]; rfl
-      | other => rfl
-    · rw [if_neg hf, if_pos hf]; rfl
-
-/-- Non-vacuity, all four outcomes on numbers: a regular molecule; one point broadcast over three
-weights; two points for three weights; no atoms. -/
-example :
-    Gen.MolGrid.init (P := Nat) (K := Nat) 0 [1, 8] [⟨[10, 11], [1, 2], 0⟩, ⟨[20], [3], 5⟩]
-      (.array [1, 0, 1]) false =
-      .ok ⟨[10, 11, 20], [1, 0, 3], [1, 2, 3], [1, 0, 1], [0, 5], [0, 2, 3], none⟩ ∧
-    (Gen.MolGrid.init (P := Nat) (K := Nat) 0 [1] [⟨[7], [1, 2, 3], 9⟩]
-      (.callable fun p _ _ i => p.map fun _ => i.length) true).toOption.map
-        (fun m => (m.points, m.weights, m.indices)) = some ([7, 7, 7], [2, 4, 6], [0, 3]) ∧
-    Gen.MolGrid.init (P := Nat) (K := Nat) 0 [1] [⟨[7, 8], [1, 2, 3], 9⟩] (.array [1, 1, 1]) false =
-      .error .valueError ∧
-    Gen.MolGrid.init (P := Nat) (K := Nat) 0 [] [] (.array []) false = .error .typeError := by
-  decide
-
-/-- The content of `np.zeros` never shows: any two zero rows give the same molecular grid. -/
-theorem gen_init_overwrites_zeros [Add K] [Mul K] [NatCast K] (z1 z2 : P) (atnums : List Nat)
-    (atgrids : List (AtGrid P K)) (aim : AimArg P K) (store : Bool) :
-    Gen.MolGrid.init z1 atnums atgrids aim store = Gen.MolGrid.init z2 atnums atgrids aim store := by
-  rw [gen_init_eq_model, gen_init_eq_model]
-
-example : Gen.MolGrid.init (P := Nat) (K := Nat) 0 [1, 1] [⟨[7], [1], 0⟩, ⟨[7, 8], [1, 3], 1⟩]
-      (.array [1, 1, 1]) true =
-    Gen.MolGrid.init (P := Nat) (K := Nat) 99 [1, 1] [⟨[7], [1], 0⟩, ⟨[7, 8], [1, 3], 1⟩]
-      (.array [1, 1, 1]) true := by
-  decide
-
-/-- **The generated `get_atomic_grid` is the hand model**, for every molecular grid value and
-every integer index (sign guard, stored / not stored, the two slices with their four index
-look-ups, `LocalGrid`'s length check). -/
-theorem gen_getAtomicGrid_eq_model (m : MolGrid P K) (index : Int) :
-    Gen.MolGrid.getAtomicGrid m index = m.getAtomicGrid index := by
-  unfold Gen.MolGrid.getAtomicGrid MolGrid.getAtomicGrid
-  by_cases hn : index < 0
-  · simp only [hn, ↓reduceIte]; rfl
-  · simp only [hn, ↓reduceIte]
-    cases m.atgrids with
-    | some gs => rfl
-    | none =>
-      simp only
-      cases pyGet m.indices index with
-      | error e => rfl
-      | ok a =>
-        cases pyGet m.indices (index + 1) with
-        | error e => rfl
-        | ok b => rfl
-
-
-/-- **The generated `__getitem__` is the hand model** (no sign guard; `self.weights`, i.e. the
-aim-weighted weights, when the grids are not stored). -/
-theorem gen_getItem_eq_model (m : MolGrid P K) (index : Int) :
-    Gen.MolGrid.getItem m index = m.getItem index := by
-  unfold Gen.MolGrid.getItem MolGrid.getItem
-  cases m.atgrids <;> rfl
-
-/-- Non-vacuity: the generated accessors on the witness molecule of `getItem_spec` (stored and not
-stored; indices inside, negative, beyond). -/
-example :
-    let m1 : MolGrid Nat Nat := ⟨[7, 7, 8], [2, 2, 6], [1, 1, 3], [2, 2, 2], [0, 1], [0, 1, 3],
-      some [⟨[7], [1], 0⟩, ⟨[7, 8], [1, 3], 1⟩]⟩
-    let m2 : MolGrid Nat Nat := { m1 with atgrids := none }
-    Gen.MolGrid.getAtomicGrid m1 1 = .ok (.atom ⟨[7, 8], [1, 3], 1⟩) ∧
-    Gen.MolGrid.getAtomicGrid m2 1 = .ok (.localGrid [7, 8] [1, 3] 1) ∧
-    Gen.MolGrid.getItem m2 1 = .ok (.localGrid [7, 8] [2, 6] 1) ∧
-    Gen.MolGrid.getItem m2 (-1) = .ok (.localGrid [] [] 1) ∧
-    Gen.MolGrid.getAtomicGrid m2 (-1) = .error .valueError ∧
-    Gen.MolGrid.getItem m2 2 = .error .indexError := by
-  decide
 
 end GridVerif.C07
